@@ -23,6 +23,7 @@ LOOPS = {
     "rec": "int rec(int d) { return rec(d + 1) + 1; }\nint body() { return rec(0); }",
     "mutual": "int mb(int d);\nint ma(int d) { return mb(d + 1) + 1; }\nint mb(int d) { return ma(d + 1) + 1; }\nint body() { return ma(0); }",
     "recfp": "int rfp(int d) { function f = (: rfp :); return evaluate(f, d + 1) + 1; }\nint body() { return rfp(0); }",
+    "recfunc": "int rf2(int d) { return evaluate((: rf2($1) :), d + 1) + 1; }\nint body() { return rf2(0); }",
     "reccb": "mixed rcb(mixed x) { return map_array(({ 1 }), \"rcb\", this_object()); }\nint body() { rcb(1); return 1; }",
     "recother": "int rco(int d) { return this_object()->rco(d + 1) + 1; }\nint body() { return rco(0); }",
     "bigargs": "int many(mixed *x...) { return sizeof(x); }\nint body() { mixed *a = allocate(1500); return many(a...); }",
@@ -34,7 +35,10 @@ def budget_src(it):
     src = ['#include "/sc.h"', "void create() { seteuid(getuid()); }", LOOPS[it["loop"]]]
     nest = it["nest"]
     # level0 = body; level k wraps level k-1 in a catch
-    src.append("mixed level0() { return body(); }")
+    pad = it.get("pad", 0)
+    for k in range(pad):
+        src.append("mixed pad%d() { return %s(); }" % (k, "body" if k == 0 else "pad%d" % (k - 1)))
+    src.append("mixed level0() { return %s(); }" % ("pad%d" % (pad - 1) if pad else "body"))
     for k in range(1, nest + 1):
         nxt = {"ret": "", "loop": "body();", "recurse": "level%d();" % k}[it["next"]]
         src.append('mixed level%d() { mixed e; int lim; e = catch(level%d()); '
@@ -143,6 +147,7 @@ def run(tier, work):
         open(os.path.join(root, "c04", "b%d.c" % i), "w").write(budget_src(it))
         scen_b.append((str(i), ["setcfg MaxEvaluationCost %d" % it["cost"], "backend", "connect u1", "cycle", "line u1 name u1", "cycle",
                                 "line u1 do me mk:b:/c04/b%d" % i, "cycle", "izero", "line u1 do me xcall:b:go", "cycle", "icount", "cycle"]))
+    nb = len(budget)
     exs_b = vlib.run_vdrv(exe, conf, scen_b, work, tag="runb", timeout=30)
     # ---- size group (small limits in the configuration file)
     conf2, root2 = work.mudlib(name="mudlib_s", conf_extra="MaxArraySize %d\nMaxMappingSize %d\nMaxBufferSize %d\nMaxStringLength %d\n"
